@@ -395,9 +395,9 @@ structure Flags where
   simpleSetInitial : Option Tensor → Option Tensor → Option Tensor
   /-- PtTempo: (`bool(process_tensor_file)`, `isinstance(process_tensor_file, Text)`) ↦ class -/
   ptTempoChoice : Bool → Bool → PtChoice
-  /-- PtTempo `_init_file_process_tensor`: (the caller's `overwrite`, any other operand of the
-      condition, e.g. a look at the existing file) ↦ mode -/
-  ptTempoMode : Bool → Bool → String
+  /-- PtTempo `_init_file_process_tensor`: (the caller's `overwrite`, the other operands of the
+      condition — e.g. looks at the file system — by index) ↦ mode -/
+  ptTempoMode : Bool → (Nat → Bool) → String
   /-- `FileProcessTensor.name.setter` / `description.setter` -/
   nameSetter : SetterSpec
   descrSetter : SetterSpec
